@@ -68,7 +68,7 @@ CHECKS = {
         technique="bounded native contract check (stand-in)"),
     "C17": dict(
         category="exploration",
-        text="The statistics block of get_code (cut out of the real method on every run, the version-note statement abstracted to 'writes any text') is proved to compute num_lines / num_bytes / num_registers from the returned text by the property's formulas; that the used-register set is complete, and the formulas' agreement with an independent recount (lines, bytes with two-byte line ends, distinct r<N> tokens), are bounded: generated programs incl. state-only libraries, version-note vectors, and corner programs x all 256 option vectors.",
+        text="The statistics block of get_code (cut out of the real method on every run, the version-note statement abstracted to 'writes any text') is proved to compute num_lines / num_bytes / num_registers from the returned text by the property's formulas; the body of assign_registers' symbol loop is proved to add every register it hands out to the scope's used set; the union over scopes, and the formulas' agreement with an independent recount (lines, bytes with two-byte line ends, distinct r<N> tokens), are bounded: generated programs incl. state-only libraries, version-note vectors, and corner programs x all 256 option vectors.",
         design_ref="6.C17, 12.8", note="Level stays 'exploration' because completeness of used_registers (register_assignment) is bounded only; the proved obligations are listed separately in the evidence.",
         technique=TECH + " (block contract); bounded native contract check of compile_code as stand-in"),
     "C10": dict(
@@ -98,7 +98,7 @@ CHECKS = {
         technique=TECH + "; bounded native check for the parts outside reach"),
     "C04": dict(
         category="exploration",
-        text="assign_colors is PROVED on the real source for symbol lists of every length (two loop invariants of 10 + 9 clauses, ghost owner lists and slot fields, symbolic-length lists; overlapping lifetimes get different colours, every symbol is coloured) and, as an independent second encoding, executed symbolically for every list of n <= 5 (thorough: 7) symbols; the body of assign_registers' symbol loop is proved (colour c is the c-th register not blocked by a caller, within r0-r15, otherwise the out-of-registers error). That line-interval lifetimes cover real liveness, and the call-graph blocking around the loop, are exercised by the bounded simulation check only (a clobbered live value shows up as a wrong effect), hence level 'exploration'.",
+        text="assign_colors is PROVED on the real source for symbol lists of every length (two loop invariants of 10 + 9 clauses, ghost owner lists and slot fields, symbolic-length lists; overlapping lifetimes get different colours, every symbol is coloured) and, as an independent second encoding, executed symbolically for every list of n <= 5 (thorough: 7) symbols; the body of assign_registers' symbol loop is proved (colour c is the c-th register not blocked by a caller, within r0-r15, otherwise the out-of-registers error). That line-interval lifetimes cover real liveness, and the call-graph blocking around the loop, are validated per compilation: an interprocedural liveness analysis over the virtual register names observed around the real assign_registers reports every definition that overwrites another live value's register (complete per program, independent of run-time values), next to the simulation check (a clobbered live value shows up as a wrong effect); both are bounded over generated programs, hence level 'exploration'.",
         design_ref="6.C04, 12.8, appendix A", note="sorted() is an assumed contract (ordering fact for the key the code passes); known findings (alias, nested-loop lifetime, transitive blocking, inlined return register) replayed every run.",
         technique=TECH + " (unbounded loop-invariant proof + K-bounded second encoding); bounded native contract check of compile_code as stand-in"),
     "C09": dict(
